@@ -1,4 +1,5 @@
 import AikenVerif.Lemmas.DeBruijn
+import AikenVerif.Lemmas.Interner
 /-!
 # C11 — Variable binding survives name/index conversions
 
@@ -237,5 +238,29 @@ example : ¬ AlphaEq [] [] (.lam ⟨"x", 0⟩ (.lam ⟨"y", 1⟩ (.var ⟨"x", 0
   simp at h1
 example : AlphaEq [] [] (.lam ⟨"x", 0⟩ (.var ⟨"x", 0⟩)) (.lam ⟨"i_5", 5⟩ (.var ⟨"i_5", 5⟩)) :=
   AlphaEq.lam (AlphaEq.var rfl (by simp [resolve]))
+
+-- ================================================================= CodeGenInterner
+/-- `CodeGenInterner::program` never panics, and in its output binding *by unique alone* (what
+`name_to_debruijn` looks at) is exactly the binding *by (text, unique)* of its input: same index
+term, and an input with a variable that has no binder of its key is still rejected afterwards. -/
+theorem intern_preserves_binding (t : Term Name) :
+    ∃ t', intern t = .ok t' ∧
+      (∀ d, specByKey ckey [] t = .ok d → nameToDb t' = .ok d) ∧
+      (∀ e, specByKey ckey [] t = .error e → ∃ n, nameToDb t' = .error (.freeUnique n)) := by
+  obtain ⟨t', s', h1, _, _, h4, h5⟩ := internTerm_ok t Interner.new [] iinv_new
+  refine ⟨t', by simp [intern, h1, Except.map], ?_, ?_⟩
+  · intro d hd; rw [nameToDb_eq_spec]; exact h4 d hd
+  · intro e he; rw [nameToDb_eq_spec]; exact h5 e he
+
+/-- resolution by key with `key = unique` is the converter's own resolution -/
+theorem specByKey_unique_eq (t : Term Name) : specByKey (·.unique) [] t = nameToDb t := by
+  rw [nameToDb_eq_spec]; exact specByKey_unique t []
+
+/-- optimiser-style input: every name has unique 0, binding is by text.  The converter alone would
+bind `y` to the innermost lambda; after interning it refers to the outer one, as its key says. -/
+example : nameToDb (.lam ⟨"y", 0⟩ (.lam ⟨"x", 0⟩ (.var ⟨"y", 0⟩))) = .ok (.lam 0 (.lam 0 (.var 1))) := rfl
+example : specByKey ckey [] (.lam ⟨"y", 0⟩ (.lam ⟨"x", 0⟩ (.var ⟨"y", 0⟩))) = .ok (.lam 0 (.lam 0 (.var 2))) := rfl
+example : ∃ t', intern (.lam ⟨"y", 0⟩ (.lam ⟨"x", 0⟩ (.var ⟨"y", 0⟩))) = .ok t' ∧ nameToDb t' = .ok (.lam 0 (.lam 0 (.var 2))) :=
+  ⟨_, rfl, rfl⟩
 
 end AikenVerif.C11
